@@ -36,7 +36,7 @@ RULE = ('2-3 concurrent trash-put processes of one user, each trashing 1-3 entri
 ASSUMPTIONS = ['processes are single-threaded; every system call is atomic; only the order of calls of different processes varies',
                'in a fault-free run where all processes trash distinct existing entries no process may fail (attributed to C04 by its quantifier); '
                'a process that met an injected error may fail, the others may not, and the pair invariant holds for all']
-PROBES = ['schedules', 'context-switches', 'switch-between-reserve-and-rename', 'both-created-trash-dir', 'eexist-retry', 'crowded-random-suffix',
+PROBES = ['same-path-given-to-several-puts', 'schedules', 'context-switches', 'switch-between-reserve-and-rename', 'both-created-trash-dir', 'eexist-retry', 'crowded-random-suffix',
           'sequential-histories', 'over-100-same-name', 'orphan-dangling-symlink', 'orphan-dir', 'stray-info', 'uniform', 'pct', 'sweep', 'sweepfault', 'three-procs', 'cross-device-puts-next-to-decorated-names',
           'fault-in-one-process', 'fault-fired', 'faulted-process-reported-failure']
 TECHNIQUE = 'deterministic simulation of concurrent processes: baton-passing threads under a seeded scheduler (uniform / PCT / sweep), invariant on pairs after all exit'
@@ -161,6 +161,13 @@ def gen(rng):
             # scripted suffixes: every process draws the same taken values first
             spec['rand'] = None
         procs.append(spec)
+    samepath = mode == 'conc' and rng.random() < 0.08
+    if samepath:
+        # every process is given the SAME path
+        steps.append(['d', home + '/shared', 0o755])
+        G.make_entry(rng, home + '/shared/' + names[0], rng.choice(['file', 'dir', 'link_dangling']), steps, home + '/aux')
+        for spec in procs:
+            spec['argv'] = ['trash-put', '--', home + '/shared/' + names[0]]
     if mode == 'seq':
         # the same name trashed again and again, one process after the other
         n = rng.choice([3, 12, 105, 120])
@@ -186,8 +193,44 @@ def gen(rng):
             case['sched']['sweep'] = {'pid': fp, 'j': rng.randrange(0, 5)}
     if mode == 'crowded':
         case['randscript'] = crowded_script
-    case['note'] = {'state': state, 'names': names}
+    case['note'] = {'state': state, 'names': names, 'samepath': samepath}
+    if samepath:
+        case.pop('faults', None)
     return case
+
+
+def check_samepath(sim, case, st, procs, before, mounts, skel):
+    """two (or three) trash-put processes are given THE SAME path (a double click, xargs -P over a list with a duplicate): every
+    process that reports success owns a complete pair of its own - so at most one can; a loser reports failure and leaves nothing"""
+    sc = case.get('sched', {})
+    chooser = SS.Chooser(random.Random(sc.get('seed', 0)), sc.get('strategy', 'uniform'), nprocs=len(procs),
+                         choices=sc.get('choices'), depth=sc.get('depth', 2), est_ops=120 * len(procs), sweep=sc.get('sweep'))
+    ht_dirs = sorted(set(posixpath.dirname(posixpath.dirname(p)) for p in skel if p.endswith('/files')))
+    results, sch = SS.run_concurrent(sim, procs, chooser, shared_prefixes=tuple(ht_dirs))
+    st.sims += len(procs)
+    st.ops += sum(r.nops for r in results)
+    st.probes['same-path-given-to-several-puts'] += 1
+    after = sim.snap()
+    res = []
+    ctx = '(strategy %s, %d switches, exits %r) stderr: %s' % (sc.get('strategy'), sch.switches, [r.exit for r in results], ' | '.join(r.errs[-200:] for r in results))
+    new_pairs, stray_infos, orphan_payloads = 0, [], []
+    for T in ML.trash_dirs_in(after) | ML.trash_dirs_in(before):
+        ni = ML.infos(after, T) - ML.infos(before, T)
+        npl = ML.payloads(after, T) - ML.payloads(before, T)
+        new_pairs += len(ni & npl)
+        stray_infos += [T + '/info/' + n for n in ni - npl]
+        orphan_payloads += [T + '/files/' + n for n in npl - ni]
+    ok = sum(1 for r in results if r.exit == 0 and r.exc is None)
+    sig = 'n%d' % len(procs)
+    if any(r.exc is not None for r in results):
+        res.append(('C04/samepath/traceback/%s' % sig, 'a process raised %s %s' % ([r.exc for r in results if r.exc], ctx)))
+    if ok != new_pairs:
+        res.append(('C04/samepath/successes-vs-pairs/%s' % sig, '%d process(es) reported success for the one path, the trash got %d complete new pair(s) %s' % (ok, new_pairs, ctx)))
+    if stray_infos:
+        res.append(('C04/samepath/stray-info/%s' % sig, 'a .trashinfo without payload was left: %r %s' % (stray_infos[:3], ctx)))
+    if orphan_payloads:
+        res.append(('C04/samepath/payload-without-info/%s' % sig, '%r %s' % (orphan_payloads[:3], ctx)))
+    return _dedup(res)
 
 
 def check(sim, case, st):
@@ -245,6 +288,8 @@ def check(sim, case, st):
         named = [OP.name_entry(sim.root, spec.get('cwd', '/'), a, before, mounts) for a in files]
         per_proc.append(named)
         allnamed.extend(named)
+    if case.get('note', {}).get('samepath'):
+        return check_samepath(sim, case, st, procs, before, mounts, skel)
     if OP.related(allnamed) or any(n.kind != 'entry' for n in allnamed):
         return []
     sc = case.get('sched', {})
